@@ -18,6 +18,7 @@ import EPV.Gen.SedovRunStd
 import EPV.Gen.SedovRunVac
 import EPV.Gen.SedovPhysical
 import EPV.Tactics
+import EPV.Lemmas.Bridge.SemiTac
 
 set_option linter.all false
 set_option maxRecDepth 100000
@@ -31,13 +32,13 @@ theorem sedov_sing_sie_def (p : SedovRunSing.P) (r t : ℝ) :
     SedovRunSing.specific_internal_energy p r t
       = SedovRunSing.pressure p r t / (p.gamma - 1) / SedovRunSing.density p r t := by
   simp only [epv_tree]
-  split_ifs <;> first | (simp only [epv_leaf]; done) | simp
+  split_ifs <;> first | (simp only [epv_leaf]; done) | (simp only [epv_leaf] <;> epv_semi_eq) | simp
 
 /-- SedovRunSing: c = (γ p/ρ)^(1/2) on every path -/
 theorem sedov_sing_sound_def (p : SedovRunSing.P) (r t : ℝ) :
     SedovRunSing.sound_speed p r t = (p.gamma * SedovRunSing.pressure p r t / SedovRunSing.density p r t) ^ ((1 : ℝ) / 2) := by
   simp only [epv_tree]
-  split_ifs <;> first | (simp only [epv_leaf]; done) | (simp; done) | (norm_num; done)
+  split_ifs <;> first | (simp only [epv_leaf]; done) | (simp only [epv_leaf] <;> epv_semi_eq) | (simp; done) | (norm_num; done)
 
 /-- SedovRunSing: **p = (γ-1) ρ e** wherever the returned density does not vanish (the code divides by ρ
 and by γ-1) -/
@@ -57,13 +58,13 @@ theorem sedov_std_sie_def (p : SedovRunStd.P) (r t : ℝ) :
     SedovRunStd.specific_internal_energy p r t
       = SedovRunStd.pressure p r t / (p.gamma - 1) / SedovRunStd.density p r t := by
   simp only [epv_tree]
-  split_ifs <;> first | (simp only [epv_leaf]; done) | simp
+  split_ifs <;> first | (simp only [epv_leaf]; done) | (simp only [epv_leaf] <;> epv_semi_eq) | simp
 
 /-- SedovRunStd: c = (γ p/ρ)^(1/2) on every path -/
 theorem sedov_std_sound_def (p : SedovRunStd.P) (r t : ℝ) :
     SedovRunStd.sound_speed p r t = (p.gamma * SedovRunStd.pressure p r t / SedovRunStd.density p r t) ^ ((1 : ℝ) / 2) := by
   simp only [epv_tree]
-  split_ifs <;> first | (simp only [epv_leaf]; done) | (simp; done) | (norm_num; done)
+  split_ifs <;> first | (simp only [epv_leaf]; done) | (simp only [epv_leaf] <;> epv_semi_eq) | (simp; done) | (norm_num; done)
 
 /-- SedovRunStd: **p = (γ-1) ρ e** wherever the returned density does not vanish (the code divides by ρ
 and by γ-1) -/
@@ -87,7 +88,7 @@ theorem sedov_vac_sie_def (p : SedovRunVac.P) (r t : ℝ) :
     by_cases h2 : SedovRunVac.c2 p r t <;>
     simp only [SedovRunVac.specific_internal_energy, SedovRunVac.pressure, SedovRunVac.density,
       h0, h1, h2, if_true, if_false] <;>
-    first | (simp; done) | (split_ifs <;> first | (simp only [epv_leaf]; done) | simp)
+    first | (simp; done) | (split_ifs <;> first | (simp only [epv_leaf]; done) | (simp only [epv_leaf] <;> epv_semi_eq) | simp)
 
 /-- SedovRunVac: c = (γ p/ρ)^(1/2) on every path -/
 theorem sedov_vac_sound_def (p : SedovRunVac.P) (r t : ℝ) :
@@ -98,7 +99,7 @@ theorem sedov_vac_sound_def (p : SedovRunVac.P) (r t : ℝ) :
   · by_cases h1 : SedovRunVac.c1 p r t <;> by_cases h2 : SedovRunVac.c2 p r t <;>
       (simp only [SedovRunVac.sound_speed, SedovRunVac.pressure, SedovRunVac.density,
         h0, h1, h2, if_true, if_false]
-       split_ifs <;> simp only [epv_leaf])
+       split_ifs <;> simp only [epv_leaf] <;> epv_semi_eq)
 
 /-- SedovRunVac: **p = (γ-1) ρ e** wherever the returned density does not vanish (the code divides by ρ
 and by γ-1) -/
@@ -125,7 +126,10 @@ theorem sedov_physical_eos (p : SedovPhysical.P) (hγ : p.gamm1 ≠ 0) (hρ : 0 
     have hne := hρ.ne'
     have h1 : p.rho2 ≠ 0 := left_ne_zero_of_mul hne
     have h2 : p.g ≠ 0 := right_ne_zero_of_mul hne
-    refine ⟨by field_simp, fun h0 => Real.sq_sqrt h0⟩
+    refine ⟨by field_simp, fun h0 => ?_⟩
+    first
+    | exact Real.sq_sqrt h0
+    | (rw [← Real.sq_sqrt h0]; congr 2; epv_semi_eq)
   · simp only [epv_leaf, epv_cond] at *
     exact absurd hρ hc
 
